@@ -2,6 +2,7 @@ import TcheranVerif.Model.PositionCmd
 import TcheranVerif.Driver.Gens
 import TcheranVerif.Model.TT
 import TcheranVerif.Model.See
+import TcheranVerif.Model.SeeSeq
 import TcheranVerif.Model.San
 import TcheranVerif.Model.Time
 import TcheranVerif.Model.Search
@@ -186,7 +187,17 @@ def seeHandle (a b : String) : String × String :=
       let mg := Game.mirror theCfg pa.game
       let same := mg.board == pb.game.board && mg.player == pb.game.player && mg.ep == pb.game.ep
       let tag := if same then "@mirror=ok" else "@mirror=DIFF"
-      (" ".intercalate sorted, " ".intercalate (tag :: sortStrings specItems))
+      -- the one lemma `see_swaplist` / `spec_is_swaplist` leave open: on tie-free captures the model's bitboard
+      -- sequence of capturers is the sequence the mailbox computation finds
+      let seqBad := (Rules.legalMoves pa.pos).filter (fun m => m.isCapture && !m.isEnPassant) |>.filterMap fun m =>
+        match See.swapValue pa.pos m, pa.game.board.pieceAt m.src, See.occAfter pa.game m with
+        | some (_, false), some moved, some occ =>
+          let placed : PieceKind := match m.promotion with | some pr => pr.piece | none => moved.kind
+          let after := Rules.setSq (Rules.setSq pa.pos.board m.src none) m.dst (some ⟨placed, pa.pos.player⟩)
+          if See.capturers pa.game m moved occ == See.seq m.dst 40 after pa.pos.player.other then none else some m.text
+        | _, _, _ => none
+      let tag2 := match seqBad with | [] => "@seq=ok" | m :: _ => s!"@seq={m}"
+      (" ".intercalate sorted, " ".intercalate (tag :: tag2 :: sortStrings specItems))
   | _, _ => bad
 
 /-! ### C18 -/
